@@ -50,7 +50,7 @@ impl<K: Eq, V> HashMap<K, V> {
         break;
       }
     }
-    idx.map(|i| self.entries.remove(i).1)
+    idx.map(|i| self.entries.swap_remove(i).1)
   }
   pub fn len(&self) -> usize {
     self.entries.len()
@@ -85,7 +85,7 @@ impl<K: Eq> HashSet<K> {
       }
     }
     if let Some(i) = idx {
-      self.entries.remove(i);
+      self.entries.swap_remove(i);
       true
     } else {
       false
